@@ -86,7 +86,12 @@ if valid:
     shutil.copy(src + "/patch.diff", dst + "/patch.diff")
     shutil.copy(src + "/demo.py", dst + "/demo.py")
     meta = json.load(open(src + "/meta.json"))
+    old = meta.get("verified", {})
     meta["verified"] = {k: res[k] for k in res if k not in ("replay_file",)}
+    if not suite and "suite" in old:
+        # re-verification of the check verdict only: keep the suite result of the full verification
+        meta["verified"]["suite"] = old["suite"]
+        meta["verified"]["suite_verified_at"] = old.get("suite_verified_at", old.get("repo_commit", "earlier verification"))
     meta["verified"]["how"] = "tools/verify_seed.py: scratch worktree of /repo HEAD; demo without/with patch; pinned suite vs BASELINE stable_pass; ./check against the changed worktree via VERIF_REPO; replay"
     if "replay_file" in res:
         rf = res["replay_file"]
